@@ -278,6 +278,8 @@ package sizes
 //@ property C19: NewFootnotes (*Footnotes).CreateCitation (*item).Emit (*section).Emit (*indentedItem).Emit (*HistorySize).TableString
 //@ property C11: (*item).levelOfConcern (*item).Emit (*item).MarshalJSON (*item).Footnote lemma/threshold_monotone lemma/verbose_shows_all (*table).indented (*table).subTable (*table).addSection (*section).Emit (*indentedItem).Emit (*HistorySize).TableString (*HistorySize).JSON (*table).formatSectionHeader (*table).emitBlankRow structural/items-well-formed
 //@ property C07: (*table).formatRow
+// ... nor for any refgroup name, however long (C19: well-formed for any names)
+//@ property C19: (*table).formatRow
 //@ property C05: (*item).levelOfConcern (*item).MarshalJSON
 //@ property C09: (*TreeSize).addDescendent (*TreeSize).addBlob (*TreeSize).addLink (*TreeSize).addSubmodule (*HistorySize).recordBlob (*HistorySize).recordTree (*HistorySize).recordCommit (*HistorySize).recordTag
 
@@ -395,6 +397,11 @@ package sizes
 //@ func (*treeRecord).initialize
 //@   modifies everything
 //@   call 0 maybeFinalize as fin
+// C08: what the path resolver is told about an entry is (this tree, the
+// entry's name, the entry's object) -- in that order: a description is
+// `<tree>:<name>` for the *entry's* object.
+//@   call 0 RecordTreeEntry assert arg_0 == oid && same(arg_1, entry.Name) && arg_2 == entry.OID
+//@   call 1 RecordTreeEntry assert arg_0 == oid && same(arg_1, entry.Name) && arg_2 == entry.OID
 //@   ensures result == nil ==> fin_reached
 //@   loop 0 step r.entryCount == plus32(prev(r.entryCount), 1)
 //@   loop 0 step r.pending == prev(r.pending) || r.pending == prev(r.pending) + 1
@@ -410,6 +417,7 @@ package sizes
 // maybeFinalize runs (C04, C09: immediate path == deferred path).
 //@ func (*treeRecord).initialize$1
 //@   modifies everything
+//@   call 0 RecordTreeEntry assert arg_0 == (*oid) && same(arg_1, (*name)) && arg_2 == (*entry).OID
 //@   call 0 addDescendent assert (*r).pending == old((*r).pending) && (*r).size == old((*r).size)
 //@   call 0 maybeFinalize assert (*r).pending == old((*r).pending) - 1
 //@   call 0 maybeFinalize assert (*r).size.ExpandedBlobCount == plus32(old((*r).size.ExpandedBlobCount), size.ExpandedBlobCount) && (*r).size.ExpandedTreeCount == plus32(old((*r).size.ExpandedTreeCount), size.ExpandedTreeCount) && (*r).size.ExpandedBlobSize == plus64(old((*r).size.ExpandedBlobSize), size.ExpandedBlobSize) && (*r).size.ExpandedLinkCount == plus32(old((*r).size.ExpandedLinkCount), size.ExpandedLinkCount) && (*r).size.ExpandedSubmoduleCount == plus32(old((*r).size.ExpandedSubmoduleCount), size.ExpandedSubmoduleCount)
@@ -512,6 +520,30 @@ package sizes
 //@   call 0 AddRoot assert w && arg_1 == rootOID(old(*roots)[rangeindex+1])
 //@   loop 0 step w ==> nAdd == prev(nAdd) + 1
 //@   loop 0 step !w ==> nAdd == prev(nAdd)
+
+// The second feeder: every tree, then every commit from the last listed to the
+// first (roughly chronological, which is what A-GIT-ORDER is about), then every
+// tag is requested from `git cat-file --batch`, each exactly once and by its own
+// id; a failed request ends the feeder with an error.
+//@ func ScanRepositoryUsingGraph$2$1
+//@   modifies everything
+//@   ghost nReq counts RequestObject
+//@   call 0 RequestObject as rq0
+//@   call 1 RequestObject as rq1
+//@   call 2 RequestObject as rq2
+//@   call 0 RequestObject assert arg_1 == old(*trees)[rangeindex+1].oid
+//@   call 1 RequestObject assert i >= 1 && i <= len(old(*commits)) && arg_1 == old(*commits)[i-1].ObjectHeader.oid
+//@   call 2 RequestObject assert arg_1 == old(*tags)[rangeindex+1].oid
+//@   loop 0 invariant nReq == rangeindex + 1
+//@   loop 0 step rq0 == nil && nReq == prev(nReq) + 1
+//@   loop 1 invariant i >= 0 && i <= len(old(*commits)) && wide(nReq) + wide(i) == wide(len(old(*trees))) + wide(len(old(*commits)))
+//@   loop 1 step rq1 == nil && nReq == prev(nReq) + 1
+//@   loop 2 invariant wide(nReq) == wide(len(old(*trees))) + wide(len(old(*commits))) + wide(rangeindex) + 1
+//@   loop 2 step rq2 == nil && nReq == prev(nReq) + 1
+//@   ensures result == nil ==> wide(nReq) == wide(len(old(*trees))) + wide(len(old(*commits))) + wide(len(old(*tags)))
+//@   ensures rq0_reached && rq0 != nil ==> result != nil
+//@   ensures rq1_reached && rq1 != nil ==> result != nil
+//@   ensures rq2_reached && rq2 != nil ==> result != nil
 
 // What git delivers is not ours to prove: each listed tree/tag exactly once
 // (A-GIT-REVLIST), parents before children and the tree of a commit before the
@@ -621,7 +653,7 @@ package sizes
 // whatever the name style
 //@   ensures result1 == nil ==> nRootSeen == len(roots)
 
-//@ property C01: ScanRepositoryUsingGraph ScanRepositoryUsingGraph$1$1 NewGraph (*Graph).HistorySize
+//@ property C01: ScanRepositoryUsingGraph ScanRepositoryUsingGraph$1$1 ScanRepositoryUsingGraph$2$1 NewGraph (*Graph).HistorySize
 //@ property C10: ScanRepositoryUsingGraph ScanRepositoryUsingGraph$1$1
 //@ property C18: ScanRepositoryUsingGraph
 //@ property C07: ScanRepositoryUsingGraph
@@ -969,6 +1001,6 @@ package sizes
 //@ property C19: (*Footnotes).String (*item).CollectItems (*section).CollectItems
 //@ property C11: newItem (*item).CollectItems (*section).CollectItems (*item).Indented newSection
 //@ property C01: NewExplicitRoot
-//@ property C08: (*Graph).RegisterName structural/items-well-formed
+//@ property C08: (*Graph).RegisterName structural/items-well-formed (*treeRecord).initialize (*treeRecord).initialize$1
 // bytes get binary prefixes and counts metric ones at every item of the report
 //@ property C12: structural/items-well-formed
